@@ -18,6 +18,7 @@ RULE = (
     'species, cell, parameters).'
 )
 RULE += ' Added in rounds 5-10: in-place edits (temperature, time step, extend) re-queried through Trajectory.metrics(); 1/T law on a second live trajectory; cell scale over six decades; hydrogen isotopes; lists of different runs (other cell / temperature / a one-frame run) for the Std variants; arbitrary time steps.'
+RULE += ' Round 12: ion charges also negative, zero (conductivity exactly 0) and fractional.'
 ASSUMPTIONS = [
     'CODATA 2018 exact constants (k_B, e, N_A); atomic masses from pymatgen Element data',
     'relative tolerance 1e-9; total time = n_frames x time_step',
@@ -75,6 +76,9 @@ def run_unit(unit, rng, ctx):
     dt = float(rng.choice([1e-15, 2e-15, 20 * 2.4188843265857e-17, float(10.0 ** rng.uniform(-16.5, -14))]))
     temp = float(rng.uniform(50, 1500))
     z = int(rng.integers(1, 4))
+    if rng.uniform() < 0.3:
+        # "all ion charges": anions, a neutral species (conductivity exactly zero), partial charges
+        z = [-2, -1, 0, 0, 4, 0.5, -1.5][int(rng.integers(7))]
     dim = int(rng.integers(1, 4))
     sp = gen.species_objects(names, rng=rng)
     traj = gen.make_trajectory(m, sp, U - np.floor(U), time_step=dt, metadata={'temperature': temp})
